@@ -856,7 +856,10 @@ fn compare(ctx: &mut Ctx, sc: &Scenario, queries: &[String], kind: &[u8], git_a:
             .filter_map(|a| a.hit.as_ref())
             .filter_map(|(src, line, _)| raw_line(sc, src, *line).map(|l| (l, is_last_line_with_lone_cr(sc, src, *line))))
             .collect();
-        let cause: String = if lines.iter().any(|(_, lone_cr)| *lone_cr) {
+        let cause: String = if inherited && class == "pattern" && x.ignored() {
+            // both say "ignored", git names the pattern of the excluded parent directory
+            "other-pattern-reported-below-excluded-directory".into()
+        } else if lines.iter().any(|(_, lone_cr)| *lone_cr) {
             "final-line-ends-with-lone-cr".into()
         } else if lines.iter().any(|(l, _)| starstar_after_literal_prefix(l)) {
             "starstar-right-after-literal-prefix".into()
